@@ -4,8 +4,15 @@ package openapi
 
 // Contracts checked by /verif/goavc (comment-only file, built only with -tags verif).
 
+// An attribute is left out of the generated document when its last "openapi:generate" (or, failing that,
+// "swagger:generate") metadata value is "false".
+//@ smt (declare-fun findSpec (Int String) Int)
+//@ macro genFlag(meta, k) = inMap(meta, k) && len(meta[k]) >= 1
+//@ macro mustGen(meta) = !((genFlag(meta, "openapi:generate") && meta["openapi:generate"][len(meta["openapi:generate"]) - 1] == "false") || (!genFlag(meta, "openapi:generate") && genFlag(meta, "swagger:generate") && meta["swagger:generate"][len(meta["swagger:generate"]) - 1] == "false"))
 //@ func MustGenerate
 //@   params meta
+//@   property C14
+//@   ensures* last.generate.flag: result == mustGen(meta)
 //@   modifies nothing
 
 //@ iface goa.design/goa/v3/expr.DataType.Kind
@@ -28,5 +35,15 @@ package openapi
 //@   ensures* length.array: val != nil && isArray ==> (old(val.MinLength) != nil ==> s.MinItems == old(val.MinLength)) && (old(val.MaxLength) != nil ==> s.MaxItems == old(val.MaxLength)) && s.MinLength == old(s.MinLength) && s.MaxLength == old(s.MaxLength)
 //@   ensures* length.string: val != nil && !isArray && !isMap ==> (old(val.MinLength) != nil ==> s.MinLength == old(val.MinLength)) && (old(val.MaxLength) != nil ==> s.MaxLength == old(val.MaxLength)) && s.MinItems == old(s.MinItems) && s.MaxItems == old(s.MaxItems)
 //@   ensures* length.map.applicable: val != nil && isMap ==> s.MinLength == old(s.MinLength) && s.MaxLength == old(s.MaxLength)
-//   -- the required list may be appended in place
+//   -- the required list may be appended in place: each required name of the design is appended, in order,
+//   -- unless it names an attribute that is excluded from generation; nothing already listed is touched
+//   -- Find is ASSUMED to be a function of the attribute and the name (its frame, "writes nothing", is proved in expr)
+//@   callspec (*AttributeExpr).Find params a name
+//@       ensures result == ptr(*expr.AttributeExpr, findSpec(a, name)) && result <= alloc() && result >= 0
+//@       modifies nothing
+//@   let cur = ranged(1)[rangeindex]
+//@   let found = ptr(*expr.AttributeExpr, findSpec(at, cur))
+//@   let excluded = found != nil && !prev(1, mustGen(now(found.Meta)))
 //@   loop 1 modifies elems(string)
+//@   loop 1 invariant* all.required.visited: val != nil && ranged(1) == old(val.Required)
+//@   loop 1 step* required.filtered: len(s.Required) == prev(1, len(s.Required)) + ite(excluded, 0, 1) && (!excluded ==> s.Required[len(s.Required) - 1] == cur) && (forall k int :: 0 <= k && k < prev(1, len(s.Required)) ==> s.Required[k] == prev(1, s.Required[k]))
